@@ -531,6 +531,17 @@ def finish(prop, tier, seed, results, t_start, extra=None):
                           'rules': r['report']['rules'],
                           'unextractable_functions_assumed': r['report'].get('unextractable') or {},
                           'cheat_scan': cheat_scan(r['text'])}
+        # solver time per verified function (Verus --time-expanded): the functions that carry this property, and
+        # the slowest queries of the whole file (a slow query is the unstable one)
+        fb = []
+        for m in (((r['res']['json'] or {}).get('times-ms', {}).get('smt', {}) or {}).get('smt-run-module-times') or []):
+            for x in m.get('function-breakdown') or []:
+                q = x.get('function', '').split('::', 1)[-1]
+                fb.append({'function': q, 'smt_ms': x.get('time'), 'rlimit': x.get('rlimit'), 'success': x.get('success')})
+        mine = [x for x in fb if any(x['function'].split('__')[0] == f or x['function'] == f for f in fns)]
+        per_mode[mode]['solver_time_by_function'] = sorted(mine, key=lambda x: -(x['smt_ms'] or 0))[:40]
+        per_mode[mode]['slowest_queries'] = sorted(fb, key=lambda x: -(x['smt_ms'] or 0))[:8]
+        per_mode[mode]['queries'] = len(fb)
         vac = r.get('vacuity') or {}
         per_mode[mode]['vacuity'] = vac
         if vac.get('error'):
